@@ -1,4 +1,5 @@
 import TonicModel.Lemmas.FramingWire
+import TonicModel.Lemmas.FramingEncAfter
 import TonicModel.Lemmas.Interceptor
 import TonicModel.Model.Interceptor
 import TonicModel.Model.RecoverError
@@ -6,7 +7,8 @@ import TonicModel.Model.GrpcWire
 import TonicModel.Spec.GrpcResponse
 /-
 C03 — Requests and responses on the wire are spec-conformant gRPC.
-Body part: judged by `Spec.Framing.split`, a batch parser that shares nothing with the model.
+Body part: judged by `Spec.Framing.split`, a batch parser that imports nothing of the model (Spec/Framing.lean
+imports `Basic.Bytes` only and does its own big-endian arithmetic; the type `Bytes` is all they have in common).
 -/
 namespace C03
 open Framing Spec.Framing
@@ -94,8 +96,8 @@ theorem C03_flag_iff_compressed (cd : Codec α) (cfg : EncCfg) (ms : List α) :
 
 /-- **A client request body carries no trailers — ever**: in whatever state, for every source
 schedule and however often it is polled (also past an error or its end), a client-role body never
-yields a trailers frame.  (`C03_client_body_wellformed` below leaves the polls after an error
-unconstrained; this closes that gap.) -/
+yields a trailers frame.  (`C03_client_body_wellformed` below says what the polls after an error are: a
+fresh body's run over the rest of the source — which, by this theorem, contains no trailers either.) -/
 theorem C03_client_body_never_trailers (cd : Codec α) (cfg : EncCfg) (hs : cfg.server = false) (n : Nat) :
     ∀ (b : BodySt) (evs : List (SrcEv α)) (st : St), FrameOut.trailers st ∉ Enc.run cd cfg n b evs := by
   have step : ∀ (b : BodySt) (evs : List (SrcEv α)) (st : St),
@@ -113,13 +115,17 @@ theorem C03_client_body_never_trailers (cd : Codec α) (cfg : EncCfg) (hs : cfg.
     exact ⟨fun h => step b evs st h.symm, ih _ _ st⟩
 
 /-- **A client request body** delivers whole frames of the messages before
-the first failure, and then ends or fails. -/
+the first failure, and then ends (`None` for ever) or fails with that failure's status as its FIRST error
+(`pre` holds `Pending`s and data only).  A body polled again after the error — hyper does not do that — resumes
+as a fresh body over the rest of the source (`rest`, a suffix of `evs`): the tail is stated, not left open. -/
 theorem C03_client_body_wellformed (cd : Codec α) (cfg : EncCfg) (hs : cfg.server = false)
     (evs : List (SrcEv α)) (n : Nat) (hn : evs.length + 1 < n) :
     ∃ pre, (∀ o ∈ pre, o = .pending ∨ ∃ d, o = .data d) ∧
       Spec.Framing.split (dataConcat pre) = (expectedFrames cd cfg (okPrefix cd cfg evs), []) ∧
-      ((∃ st post, Enc.run cd cfg n Enc.init evs = pre ++ .err st :: post) ∨
-       Enc.run cd cfg n Enc.init evs = pre ++ List.replicate (n - pre.length) .none) := by
+      ((∃ st done rest, finalSt cd cfg evs = some st ∧ evs = done ++ rest ∧
+          Enc.run cd cfg n Enc.init evs = pre ++ .err st :: Enc.run cd cfg (n - pre.length - 1) Enc.init rest) ∨
+       (finalSt cd cfg evs = none ∧
+          Enc.run cd cfg n Enc.init evs = pre ++ List.replicate (n - pre.length) .none)) := by
   obtain ⟨pre, hgood, hdata, _, hrun⟩ := run_client cd cfg hs n none evs (by simp; omega)
   refine ⟨pre, ?_, ?_, ?_⟩
   · intro o ho
@@ -133,8 +139,13 @@ theorem C03_client_body_wellformed (cd : Codec α) (cfg : EncCfg) (hs : cfg.serv
     obtain ⟨m, hm, rfl⟩ := hfp
     exact payload_lt_of_encodable cd cfg m (okPrefix_encodable cd cfg evs m hm)
   · cases hf : owedSt cd cfg none evs with
-    | some st => rw [hf] at hrun; obtain ⟨post, hp⟩ := hrun; exact Or.inl ⟨st, post, by simpa [Enc.init] using hp⟩
-    | none => rw [hf] at hrun; exact Or.inr (by simpa [Enc.init] using hrun)
+    | some st =>
+      rw [hf] at hrun
+      obtain ⟨post, hp⟩ := hrun
+      obtain ⟨done, rest, hev, hpost⟩ :=
+        run_client_err_resumes cd cfg hs n ⟨⟨[], none⟩, false⟩ evs rfl rfl pre post st hp
+      exact Or.inl ⟨st, done, rest, by simpa [owedSt] using hf, hev, by rw [← hpost]; simpa [Enc.init] using hp⟩
+    | none => rw [hf] at hrun; exact Or.inr ⟨by simpa [owedSt] using hf, by simpa [Enc.init] using hrun⟩
 
 
 /-- **`is_end_stream()` is true only after the trailers frame (server) and never for a client
@@ -160,7 +171,8 @@ concatenation the independent splitter reads as exactly one frame per message BE
 left over (nothing of the failing message is on the wire), and then: a server body yields exactly one
 trailers frame with INTERNAL (class `encode`) and `None` for ever; a client body yields that status as an
 error.  (What a client body would yield if it were polled again after that error is not claimed — hyper does
-not poll a body again after an error; see `C06_client_polled_after_error_continues`.)  The ghost functions
+not poll a body again after an error; `C03_client_body_wellformed` / `C06_no_collateral_loss_client` say what
+the model does then, `C06_client_polled_after_error_continues` is an instance.)  The ghost functions
 `okPrefix` / `finalSt`, about which the earlier form of this theorem spoke alone, are the last two conjuncts. -/
 theorem C03_encode_failure_any_position (cd : Codec α) (cfg : EncCfg) (pre rest : List (SrcEv α)) (m : α)
     (hpre : AllOk cd cfg pre) (hm : cd.serFail m = true)
